@@ -156,14 +156,21 @@ CHECKS.update({
         assumptions=UNIVERSAL_ASSUME,
     ),
 })
+def _c18free(tier, seed):
+    import c18free
+    return c18free.explore(tier, seed)
+
+
 CHECKS.update({
     "C18": dict(
-        level="model_checking",
+        level="model_checking", cli=True, python=[_c18free],
         rule="stateless, preemption-bounded DFS over the scheduling points (pick/open/write/set_len/report/exit) of the real "
              "pasfmt::format running in-process on K controlled worker threads (verif shim); every file list over the 8-kind alphabet "
              "up to the stated length, in every order; for every complete schedule the final bytes of every file are compared with "
              "its solo result and the reported errors with the set of failing files. states = executions (complete schedules), "
-             "transitions = scheduling points executed; every schedule is an execution of the real code",
+             "transitions = scheduling points executed; every schedule is an execution of the real code. A second, UNCONTROLLED family "
+             "(c18free) runs the shipped binary with real rayon (RAYON_NUM_THREADS varied) on the same kinds of batches plus 40/200-file "
+             "batches and compares with per-file runs; it samples schedules and is labelled so",
         bounds={"quick": "lists <= 2 over 8 kinds x K{1,2} x {files,check} x <= 2 preemptions; lists <= 3 over 5 kinds x K{2,3} x files x <= 1 preemption; aliased path x K=2 x <= 2 preemptions",
                 "thorough": "lists <= 3 over 8 kinds x K{1,2,3} x {files,check} x <= 2 preemptions; lists <= 2 x K{2,3} x <= 3 preemptions; aliased lists <= 2 x K{2,3} x <= 3 preemptions"},
         assumptions=["the controlled pool (one shared queue, one init() buffer per worker) is a superset of rayon's buffer-reuse patterns, not a model of rayon's internals",
@@ -226,6 +233,14 @@ CHECKS.update({
                      "the expected rendering comes from the explorer binary (FormattingConfig via toml, no config-crate layering)"],
     ),
 })
+CHECKS["C04"]["rule"] += ("; additionally: multi-line literal shapes, seed mutations (every prefix, single-token deletion, adjacent swap), "
+                         "soups of length 4 over a 50-token alphabet, every single cursor (and pairs for inputs <= 8 bytes) on soups; work bounds from "
+                         "deterministic hook counters: conditional-directive passes <= directives + 1 on every skeleton string over a 9-symbol alphabet, "
+                         "and parser / wrapper work <= 64 x the per-n^3 cost measured at n <= 8 for 16 nesting / sequence constructs up to the stated size")
+CHECKS["C04"]["bounds"]["quick"] += "; soup(k<=4, 50 tokens); literals(<=2 lines) x 2; chars(<=3); seed mutations x 1; skeletons(<=6); cursors on soup(k<=2, 2 contexts); scaling n<=64 x 2 configs"
+CHECKS["C04"]["bounds"]["thorough"] += "; soup(k<=4, 50 tokens, 2 gaps, 3 contexts) x 2; literals(<=3 lines) x 6; seed mutations x 6; skeletons(<=8); cursors on soup(k<=2, 12 contexts) x 2 and on all seeds; scaling n<=256 x 3 configs"
+CHECKS["C14"]["bounds"]["quick"] += "; directive skeletons(<=6)"
+CHECKS["C14"]["bounds"]["thorough"] += "; directive skeletons(<=8); soup(k<=4, 50 tokens); well-formed clauses on progs(d<=3) bases, progs(d<=2) all variants, wf seeds"
 CHECKS["C01"]["bounds"]["quick"] += "; progs(d<=1) x comment+directive variants x 2 configs"
 CHECKS["C08"]["bounds"]["quick"] += "; end-of-file clause: progs(d<=2) x bases x 6 configs, wf seeds x 6"
 CHECKS["C13"]["bounds"]["quick"] += "; progs(d<=1) variants and all seeds: input and formatted output"
